@@ -193,6 +193,13 @@ m('A41-endless-loop-without-atomics', [(SL, """        let number_to_fetch = num
             }
         }
 """)], ['C09'], 'a call that never returns and reaches no scheduling point: outside the simulated scheduler; C09 confirms the stalled run alone in a fresh process against a real-time limit (class no-return), every other check ends with exit 2 (harness error)')
+m('A42-buffer-released-with-len-as-capacity', [(VE, """        unsafe {
+            vec.set_len(0);
+            ManuallyDrop::drop(vec);
+        }""", """        unsafe {
+            let rebuilt = Vec::from_raw_parts(vec.as_mut_ptr(), 0, self.vec_len);
+            drop(rebuilt);
+        }""")], ['C15', 'C17'], 'the buffer is released with the length as its capacity: identical for vectors without spare capacity, undefined behaviour (deallocation with a foreign layout) otherwise; seen by the allocation ledger, which compares release size with allocation size')
 # variants that must stay quiet (Appendix B)
 m('B01-all-seqcst', [(AC, 'Ordering::AcqRel)', 'Ordering::SeqCst)'), (AC, 'Ordering::AcqRel)', 'Ordering::SeqCst)'), (AC, 'Ordering::Acquire)', 'Ordering::SeqCst)'),
                      (IT, 'self.completed.load(atomic::Ordering::Relaxed)', 'self.completed.load(atomic::Ordering::SeqCst)')], [], 'quiet')
